@@ -2,7 +2,6 @@
 
 __all__ = ['CSSCharsetRule']
 
-import codecs
 import xml.dom
 
 import cssutils
@@ -151,16 +150,9 @@ class CSSCharsetRule(cssrule.CSSRule):
             )
         else:
             try:
-                info = codecs.lookup(encoding)
+                # (codecs like rot13 or base64 are no text encodings)
+                cssutils.codec._lookup(encoding)
             except LookupError:
-                info = None
-            if (
-                info is None
-                or not getattr(info, '_is_text_encoding', True)
-                or info.name in ('css', 'undefined')
-            ):
-                # (codecs like rot13 or base64 are no text encodings, "css" is
-                # the codec which reads this rule, "undefined" always fails)
                 self._log.error(
                     'CSSCharsetRule: Unknown (Python) encoding %r.' % encoding
                 )
